@@ -26,6 +26,7 @@ fi
 for id in "$@"; do
   OUT=$("$S/target/release/hv" "$id" --tier "${VERIF_TIER:-quick}" --seed "${VERIF_SEED:-1}" 2>&1); RC=$?
   V=$(echo "$OUT" | grep -c '^VIOLATION')
-  echo "$id exit=$RC violation_lines=$V :: $(echo "$OUT" | grep '^  what:' | sort | uniq -c | sort -rn | head -2 | tr '\n' ';')"
+  INC=$(echo "$OUT" | grep -o 'inconclusive=[0-9]*' | tail -1)
+  echo "$id exit=$RC violation_lines=$V ${INC:-inconclusive=?} :: $(echo "$OUT" | grep '^  what:' | sort | uniq -c | sort -rn | head -2 | tr '\n' ';')"
 done
 ( cd "$S/repo" && git checkout -q -- . && git clean -qfd )
